@@ -1,7 +1,7 @@
 SPECIFICATION Spec
 VIEW View
 CONSTANTS D = 4
-  MaxPages = 11
+  MaxPages = 13
   MaxWriters = 4
   MaxCbs = 0
   MVals = {"-"}
